@@ -327,6 +327,70 @@ theorem c10_voxel_window (n : Nat) (size y1 y2 d : Rat) (hs : 0 < size) (hd : |y
   simp only []
   split <;> split <;> (try split) <;> (try split) <;> omega
 
+/-- **a voxel holds the atoms filed under it**: a wrapped coordinate `0 ≤ y < n·size` lies in the row `[i·size, (i+1)·size)` of its index `i`
+(what the geometric x window of `getNeighbors` assumes of every atom of the bin) -/
+theorem c10_voxel_holds (n : Nat) (size y : Rat) (hs : 0 < size) (h0 : 0 ≤ y) (h1 : y < n * size) :
+    (voxelIndex n size y : Rat) * size ≤ y ∧ y < ((voxelIndex n size y : Rat) + 1) * size := by
+  have hf0 : 0 ≤ (y / size).floor := by
+    simp only [floor_eq]; exact Int.floor_nonneg.mpr (div_nonneg h0 (le_of_lt hs))
+  have hfn : (y / size).floor ≤ (n : Int) - 1 := by
+    simp only [floor_eq]
+    have : y / size < (n : Rat) := by rw [div_lt_iff₀ hs]; exact h1
+    have h2 : (⌊y / size⌋ : Int) < (n : Int) := by
+      have := lt_of_le_of_lt (Int.floor_le (y / size)) this
+      exact_mod_cast this
+    omega
+  have hidx : ((voxelIndex n size y : Nat) : Int) = (y / size).floor := by
+    unfold voxelIndex
+    simp only []
+    split
+    · omega
+    · split
+      · omega
+      · exact Int.toNat_of_nonneg hf0
+  have hcast : (voxelIndex n size y : Rat) = (((y / size).floor : Int) : Rat) := by
+    have := congrArg (fun k : Int => (k : Rat)) hidx
+    simpa using this
+  rw [hcast]
+  simp only [floor_eq]
+  have ha := Int.floor_le (y / size)
+  have hb := Int.lt_floor_add_one (y / size)
+  constructor
+  · exact (le_div_iff₀ hs).mp ha
+  · exact (div_lt_iff₀ hs).mp hb
+
+/-- an atom a rounding error below the lower face is filed under the first row … -/
+theorem c10_voxel_edge_low (n : Nat) (size y : Rat) (hs : 0 < size) (hy : y < 0) : voxelIndex n size y = 0 := by
+  have : (y / size).floor < 0 := by
+    simp only [floor_eq]
+    have : y / size < 0 := div_neg_of_neg_of_pos hy hs
+    exact Int.floor_lt.mpr (by exact_mod_cast this)
+  unfold voxelIndex
+  simp only [this, if_true]
+
+/-- … and one on (or a rounding error above) the upper face under the last row: in both cases the row next to the position itself -/
+theorem c10_voxel_edge_high (n : Nat) (size y : Rat) (hs : 0 < size) (hn : 0 < n) (hy : n * size ≤ y) : voxelIndex n size y = n - 1 := by
+  have hfl : (n : Int) ≤ (y / size).floor := by
+    simp only [floor_eq]
+    exact Int.le_floor.mpr (by rw [le_div_iff₀ hs]; exact_mod_cast hy)
+  unfold voxelIndex
+  simp only []
+  split
+  · omega
+  · split
+    · rfl
+    · omega
+
+/-- the voxel index as `getVoxelIndex` computed it before c99b18e9: the (already wrapped) coordinate folded once more into `[0, L)` -/
+def voxelIndexRefold (n : Nat) (size L y : Rat) : Nat := voxelIndex n size (y - ((y / L).floor : Int) * L)
+
+/-- **why the fold was wrong** (the two-atom reproduction of §12.13: b_y = 7/4, five rows): an atom at y = −10⁻⁷ was filed under the top
+row, more than a cutoff away from its own position, while the clamped index files it under row 0 -/
+theorem c10_refold_witness :
+    voxelIndexRefold 5 (7/20) (7/4) (-1/10000000) = 4 ∧ voxelIndex 5 (7/20) (-1/10000000) = 0 ∧
+    ((4 : Rat) * (7/20) - (-1/10000000) > 1) := by
+  refine ⟨by decide +kernel, by decide +kernel, by norm_num⟩
+
 end MdVerif.Vox
 
 /-! ## the geometric x window of a voxel (rectangular branches of `Voxels::getNeighbors`), over the reals -/
